@@ -5,6 +5,9 @@
  *   ud <depth> <index>               set a non-NULL userdata on that object
  *   group <dont_merge> <type> <i>... hwloc_topology_alloc_group_object + hwloc_obj_add_other_obj_sets of the objects
  *                                    hwloc_get_obj_by_type(type, i) + attr->group.dont_merge + hwloc_topology_insert_group_object
+ *   allow <flags> <cpuset|-> <nodeset|->   hwloc_topology_allow (sets as <inf:hex>)
+ *   reload <flags>                   export to an XML buffer, load it into a fresh topology with these flags and the
+ *                                    same type filters, replace the topology (drops what is disallowed when flags lack INCLUDE_DISALLOWED)
  *   restrict <inf:hex> <flags>       hwloc_topology_restrict(set, flags)
  *   restrictnull <flags>             (not used: set must not be NULL per the API)
  *   dump / check / destroy / echo <text>
@@ -23,6 +26,8 @@
 #include <signal.h>
 
 static int hwv_userdata_target;
+static char *saved_filters[64]; static unsigned nsaved;
+static void forget_filters(void) { while (nsaved) free(saved_filters[--nsaved]); }
 
 static void run_check(hwloc_topology_t t, int loaded)
 {
@@ -55,7 +60,7 @@ int main(void)
     while (n && (line[n-1] == '\n' || line[n-1] == '\r')) line[--n] = 0;
     if (!strcmp(line, "new")) {
       if (t) hwloc_topology_destroy(t);
-      loaded = 0; dirty = 1;
+      loaded = 0; dirty = 1; forget_filters();
       printf("new rc=%d\n", hwloc_topology_init(&t));
     } else if (!strncmp(line, "echo ", 5)) {
       printf("%s\n", line);
@@ -86,6 +91,28 @@ int main(void)
         printf("ud ok\n");
         dirty = 1;
       }
+    } else if (!strncmp(line, "allow ", 6)) {
+      unsigned long fl = 0; char cs[4096], ns[4096]; hwloc_bitmap_t c, nd; int rc;
+      if (!loaded) { printf("allow notloaded\n"); fflush(stdout); continue; }
+      if (sscanf(line + 6, "%lu %4095s %4095s", &fl, cs, ns) != 3) { printf("bad-line\n"); fflush(stdout); continue; }
+      c = hwv_parse_set(cs); nd = hwv_parse_set(ns);
+      errno = 0; rc = hwloc_topology_allow(t, c, nd, fl);
+      printf("allow rc=%d errno=%s\n", rc, rc < 0 ? hwv_errno_class(errno) : "0");
+      hwloc_bitmap_free(c); hwloc_bitmap_free(nd);
+      dirty = 1;
+    } else if (!strncmp(line, "reload ", 7)) {
+      unsigned long fl = strtoul(line + 7, NULL, 0); unsigned k; char *xml = NULL; int len = 0, rc; hwloc_topology_t nt = NULL;
+      if (!loaded) { printf("reload notloaded\n"); fflush(stdout); continue; }
+      if (hwloc_topology_export_xmlbuffer(t, &xml, &len, 0) < 0) { printf("reload export rc=-1 errno=%s\n", hwv_errno_class(errno)); fflush(stdout); continue; }
+      if (hwloc_topology_init(&nt) < 0) { hwloc_free_xmlbuffer(t, xml); printf("reload init rc=-1\n"); fflush(stdout); continue; }
+      hwloc_topology_set_flags(nt, fl);
+      for (k = 0; k < nsaved; k++) { char *c = strdup(saved_filters[k]); hwv_config_line(nt, c); free(c); }
+      errno = 0; rc = hwloc_topology_set_xmlbuffer(nt, xml, len);
+      if (rc == 0) { errno = 0; rc = hwloc_topology_load(nt); }
+      printf("reload rc=%d errno=%s\n", rc, rc < 0 ? hwv_errno_class(errno) : "0");
+      hwloc_free_xmlbuffer(t, xml);
+      if (rc < 0) hwloc_topology_destroy(nt);       /* keep the old topology */
+      else { hwloc_topology_destroy(t); t = nt; dirty = 1; }
     } else if (!strncmp(line, "group ", 6)) {
       int dm = 0, ty = 0, used = 0, nadded = 0; unsigned idx;
       const char *p = line + 6;
@@ -127,7 +154,9 @@ int main(void)
       t = NULL; loaded = 0;
       printf("destroy\n");
     } else if (t) {
-      int r = hwv_config_line(t, line);
+      int r;
+      if (!strncmp(line, "filter ", 7) && nsaved < 64) saved_filters[nsaved++] = strdup(line);
+      r = hwv_config_line(t, line);
       if (r == 0) printf("unknown-command %s\n", line);
       else if (r == 2) printf("config rc=-1 errno=%s\n", hwv_errno_class(errno));
       else if (r < 0) printf("config bad-line\n");
@@ -137,6 +166,7 @@ int main(void)
   }
   if (t) hwloc_topology_destroy(t);
   free(hwv_xmlbuf);
+  forget_filters();
   free(line);
   return 0;
 }
